@@ -41,7 +41,7 @@ Proof. exact out_shape_spec. Qed.
 Theorem C13_illegal_axis : forall lo hi a ax, axes_sel (length (nsh a)) ax = None ->
   q_sum ax a = RErr /\ q_mean ax a = RErr /\ q_max lo ax a = RErr /\ q_min hi ax a = RErr /\
   q_argmax lo ax a = RErr /\ q_argmin hi ax a = RErr /\ q_median hi ax a = RErr /\
-  q_sort hi ax a = RErr /\ (nsh a <> [] -> forall isall, q_anyall isall ax a = RErr).
+  q_sort hi ax a = RErr /\ (forall isall, q_anyall isall ax a = RErr).
 Proof. exact illegal_axis_rejected. Qed.
 
 (* ---- sum, mean (all five branches; any rank; any legal axis argument) ---- *)
@@ -104,6 +104,11 @@ Theorem C13_sort : forall hi a ax sel,
       rmask r i = (count_um L <=? k) /\
       (rmask r i = false -> rval r i = unit (nthZ k (isort (um L)))).
 Proof. exact q_sort_ok. Qed.
+Theorem C13_sort_zero_sized : forall hi a ax sel, (forall l, ax <> AxTup l) -> size (nsh a) = 0 ->
+  axes_sel (length (nsh a)) ax = Some sel ->
+  exists r, q_sort hi ax a = ROk r /\
+            rsh r = match ax with AxNone => [size (nsh a)] | _ => nsh a end.
+Proof. exact q_sort_zero. Qed.
 Theorem C13_sort_is_sorted : forall l, Sorted Z.le (isort l) /\ Permutation l (isort l).
 Proof. intro l. split; [exact (isort_sorted l)|exact (isort_perm l)]. Qed.
 
@@ -144,7 +149,7 @@ Theorem C13_shapeless : forall lo hi a ax sel, nsh a = [] -> axes_sel 0 ax = Som
   q_sum ax a = self_res a unit /\ q_mean ax a = self_res a unit /\
   q_max lo ax a = self_res a unit /\ q_min hi ax a = self_res a unit /\
   q_median hi ax a = self_res a unit /\
-  (forall isall ax', q_anyall isall ax' a = self_res a (fun v => bz (nz v))).
+  (forall isall, q_anyall isall ax a = self_res a (fun v => bz (nz v))).
 Proof. exact shapeless_results. Qed.
 
 (* ---- Scalar.maximum / minimum: element-wise over the broadcast candidates, masked
@@ -209,6 +214,7 @@ Print Assumptions C13_argmax.
 Print Assumptions C13_argmin.
 Print Assumptions C13_median.
 Print Assumptions C13_sort.
+Print Assumptions C13_sort_zero_sized.
 Print Assumptions C13_sort_is_sorted.
 Print Assumptions C13_any_all.
 Print Assumptions C13_any_all_empty_refuted.
